@@ -12,10 +12,10 @@ package sftp
 import (
 	"bytes"
 	"context"
-	"runtime"
 	"fmt"
 	"io"
 	"os"
+	"runtime"
 	"strings"
 	"sync"
 	"sync/atomic"
@@ -26,7 +26,7 @@ import (
 func TestVerifC03(t *testing.T) {
 	vfMain(t, vfCheck{
 		ID: "C03", Level: "exploration",
-		Rule: "per scenario 1..32 goroutines share one Client (and 3 shared Files) and issue seeded mixes of Stat/Lstat/ReadLink/RealPath/Mkdir/Remove/Rename/Open+Close/File.ReadAt/WriteAt/Stat incl. multi-chunk transfers; the peer holds K in 2..24 replies and releases them in seeded order (all shuffled when the client goes idle); packet size and per-file concurrency vary; one scenario in 8 starts the request id counter just below 2^32; bounded and unbounded transports; delays at the register/deliver hooks. A class is (goroutines, K, P, op kind); non-trivial when replies were really delivered out of request order.",
+		Rule:        "per scenario 1..32 goroutines share one Client (and 3 shared Files) and issue seeded mixes of Stat/Lstat/ReadLink/RealPath/Mkdir/Remove/Rename/Open+Close/File.ReadAt/WriteAt/Stat incl. multi-chunk transfers; the peer holds K in 2..24 replies and releases them in seeded order (all shuffled when the client goes idle); packet size and per-file concurrency vary; one scenario in 8 starts the request id counter just below 2^32; bounded and unbounded transports; delays at the register/deliver hooks. A class is (goroutines, K, P, op kind); non-trivial when replies were really delivered out of request order.",
 		Assumptions: []string{"the scripted peer is the model: its result for a request is a pure function of the request", "race detector on"},
 		Units: func(tier vfTier, seed uint64) int {
 			if tier == vfThorough {
